@@ -322,7 +322,10 @@ theorem push_takeRest (ext : Ext) : ∀ (x : SVal) (b b' : B), push ext b x = .o
   | .f64 x, b, b', h => by rw [push, ctx_ok] at h; exact pushScalar_takeRest ext _ _ b' h
   | .char x, b, b', h => by rw [push, ctx_ok] at h; exact pushScalar_takeRest ext _ _ b' h
   | .str x, b, b', h => by rw [push, ctx_ok] at h; exact pushScalar_takeRest ext _ _ b' h
-  | .unitStruct x, b, b', h => by rw [push, ctx_ok] at h; exact pushScalar_takeRest ext _ _ b' h
+  | .unitStruct x, b, b', h => by
+    cases b with
+    | unknownVariant p => simp [push, ctx_ok, fail] at h
+    | _ => simp only [push] at h; exact pushNone_takeRest _ b' h
 
 theorem pushElems_takeRest (ext : Ext) : ∀ (xs : SVals) (large : Bool) (el : B) (offs : List Int) (r : B × List Int),
     pushElems ext large el offs xs = .ok r → takeRest r.1 = takeRest el
